@@ -90,8 +90,11 @@ Fixpoint walk (kn : N) (o : wopts) (start : N) (st : list blk)
       let nidx := obs_nidx ob in
       let st' := ack_step o start st (N.of_nat (length st)) op (out, nidx) in
       let fin' := if obs_changed ob then None else fin in
+      (* the file must be complete after a successful Finalize -- and, in CARv1 mode (which needs
+         no Finalize), after every successful Put *)
       let fin'' := match op with
                    | FFinalize | FFinalizeRO => if is_nil out then Some st' else fin'
+                   | FPut _ _ | FPutMany _ => if w_v1 o && is_nil out then Some st' else fin'
                    | _ => fin'
                    end in
       match op with
